@@ -32,7 +32,7 @@ type budget struct {
 	hang       time.Duration
 }
 
-var quickBudget = budget{tables: 4000, walks: 6, opsPerWalk: 60, ranges: 3, blocks: 4000, dmgTables: 8, dmgMaxSize: 1500, dmgAlts: 2, hang: 15 * time.Second}
+var quickBudget = budget{tables: 4000, walks: 6, opsPerWalk: 60, ranges: 3, blocks: 4000, dmgTables: 8, dmgMaxSize: 1500, dmgAlts: 2, hang: 30 * time.Second}
 var thoroughBudget = budget{tables: 200000, walks: 6, opsPerWalk: 60, ranges: 3, blocks: 120000, dmgTables: 200, dmgMaxSize: 2500, dmgAlts: 5, hang: 60 * time.Second}
 
 // ---- parallel runner: inputs forked sequentially, outputs merged in case order ----
